@@ -278,14 +278,15 @@ class Materialised:
                 e = repr(e.replace("'", ""))
             return e
 
+        def dflt(f):
+            return default_src(f["t"], lambda e: self.expr(e, at_mod=mod))
+
         if fl in ("dataclass", "dc_slots", "dc_kwonly", "dc_frozen"):
             opts = {"dataclass": "", "dc_slots": "slots=True", "dc_kwonly": "kw_only=True", "dc_frozen": "frozen=True"}[fl]
             lines.append(f"@dataclasses.dataclass({opts})")
             lines.append(f"class {name}:")
             for f in fields:
-                d = ""
-                if f.get("default"):
-                    d = " = dataclasses.field(default_factory=lambda: None)" if f["default"] == "factory" else " = None"
+                d = f" = {dflt(f)}" if f.get("default") else ""
                 lines.append(f"    {f['n']}: {ann(f)}{d}")
             for cv in spec.get("classvars", ()):
                 lines.append(f"    {cv}: typing.ClassVar[int] = 7")
@@ -294,7 +295,7 @@ class Materialised:
         elif fl == "namedtuple":
             lines.append(f"class {name}(typing.NamedTuple):")
             for f in fields:
-                lines.append(f"    {f['n']}: {ann(f)}" + (" = None" if f.get("default") else ""))
+                lines.append(f"    {f['n']}: {ann(f)}" + (f" = {dflt(f)}" if f.get("default") else ""))
             if not fields:
                 lines.append("    pass")
         elif fl in ("typeddict", "typeddict_partial"):
@@ -310,7 +311,7 @@ class Materialised:
                 lines.append(f"    __slots__ = {tuple(f['n'] for f in fields)!r}")
             for f in fields:
                 lines.append(f"    {f['n']}: {ann(f)}")
-            params = ", ".join(f"{f['n']}" + ("=None" if f.get("default") else "") for f in fields)
+            params = ", ".join(f"{f['n']}" + (f"={dflt(f)}" if f.get("default") else "") for f in fields)
             # required parameters must precede defaulted ones: make everything keyword-only
             lines.append(f"    def __init__(self{', *, ' + params if params else ''}):")
             for f in fields:
@@ -775,8 +776,6 @@ def conforms(spec, r, mat: Materialised, path="$", _depth=0, strict=False) -> st
             if not hasattr(r, f["n"]):
                 return f"{path}: field {f['n']} unset"
             x = getattr(r, f["n"])
-            if x is None and f.get("default"):
-                continue  # the declared default of generated optional fields is None
             e = C(f["t"], x, f"{path}.{f['n']}")
             if e:
                 return e
@@ -868,7 +867,7 @@ def plain_wire(spec, v, mat: Materialised, _depth=0):
                 x = v[f["n"]]
             else:
                 x = getattr(v, f["n"])
-            out[f["n"]] = None if (x is None and f.get("default")) else W(f["t"], x)
+            out[f["n"]] = W(f["t"], x)
         return out
     raise ValueError(k)
 
@@ -876,6 +875,33 @@ def plain_wire(spec, v, mat: Materialised, _depth=0):
 # ------------------------------------------------------------------------------------------------
 # spec strategies
 # ------------------------------------------------------------------------------------------------
+
+_SCALAR_DEFAULT = {
+    "int": "7", "bool": "True", "float": "1.5", "str": "'dflt'", "Decimal": "decimal.Decimal('1.5')",
+    "Fraction": "fractions.Fraction(1, 3)", "UUID": "uuid.UUID(int=5)", "PurePosixPath": "pathlib.PurePosixPath('d/p')",
+    "PureWindowsPath": "pathlib.PureWindowsPath('d/p')", "Path": "pathlib.Path('d/p')", "Pattern": "re.compile('d+')",
+    "date": "datetime.date(2020, 1, 2)", "datetime": "datetime.datetime(2020, 1, 2, 3, 4, 5, tzinfo=datetime.timezone.utc)",
+    "time": "datetime.time(1, 2, 3, tzinfo=datetime.timezone.utc)", "timedelta": "datetime.timedelta(seconds=5)",
+}
+
+
+def default_src(spec, enum_expr=None):
+    """Source of an immutable, well-typed default for a field of type `spec`, or None."""
+    k = spec["k"]
+    if k == "scalar":
+        return _SCALAR_DEFAULT.get(spec["t"])
+    if k in ("optional", "none"):
+        return "None"
+    if k == "literal":
+        return repr(spec["values"][0])
+    if k == "enum":
+        return (enum_expr(spec) if enum_expr else spec["name"]) + "." + spec["members"][0][0]
+    if k in ("newtype", "alias", "stralias"):
+        return default_src(spec["a"][0], enum_expr)
+    if k == "union" and any(m["k"] == "none" for m in spec["a"]):
+        return "None"
+    return None
+
 
 class Names:
     """Fresh names per generated spec (class/alias/enum)."""
@@ -1030,22 +1056,28 @@ def class_specs(draw, names, *, max_depth, hashable, open_classes, kw):
     fields = []
     future = draw(st.booleans())
     opened = (*open_classes, (mod, name))
-    seen_default = False
     for fn in fnames:
         t = draw(specs(**{**kw, "max_depth": max_depth - 1, "hashable": hashable, "open_classes": opened if not hashable else ()}))
         f = {"n": fn, "t": t}
-        # defaulted fields must be trailing for dataclasses / named tuples
-        if fl in ("dataclass", "dc_slots", "dc_frozen", "namedtuple", "plain", "slots", "dc_kwonly"):
-            if seen_default or draw(st.integers(0, 4)) == 0:
-                f["default"] = "factory" if (fl.startswith("d") and draw(st.booleans())) else "none"
-                seen_default = True
-        if fl in ("typeddict",) and draw(st.integers(0, 3)) == 0:
+        # NotRequired[...] is only visible to typing when annotations are not stringified
+        # (PEP 563 limitation documented for __required_keys__), so never under `future`.
+        if fl in ("typeddict",) and not future and not has_kind(t, "ref") and draw(st.integers(0, 3)) == 0:
             f["notreq"] = True
         if fl in ("dataclass", "plain") and draw(st.integers(0, 6)) == 0 and not has_kind(t, "ref"):
             f["final"] = True
         if has_kind(t, "ref") and draw(st.booleans()):
             f["quote_whole"] = True
         fields.append(f)
+    # well-typed defaults on a suffix of fields whose types have an immutable canonical default
+    if fl not in ("typeddict", "typeddict_partial") and fields:
+        suffix = 0
+        for f in reversed(fields):
+            if default_src(f["t"]) is None:
+                break
+            suffix += 1
+        k = draw(st.integers(0, suffix)) if draw(st.integers(0, 2)) else 0
+        for f in fields[len(fields) - k:]:
+            f["default"] = True
     spec = {"k": "class", "name": name, "mod": mod, "flavour": fl, "future": future, "fields": fields}
     if fl == "dataclass" and draw(st.integers(0, 5)) == 0:
         spec["classvars"] = ["cv"]
